@@ -227,15 +227,26 @@ func MergeErrors(err, other error) error {
 	}
 	e := asError(err)
 	o := asError(other)
-	if e.Name == "error" {
-		e.Name = o.Name
-	}
 
 	// Combine error lineage. We only ever put original errors into the history slice, so we
 	// don't need to worry about gaining intermediate merges.
 	//
-	// Do this before we modify ourselves, as History() may include us!
-	e.history = append(e.History(), o.History()...)
+	// The history of an error that has not been merged yet is the error itself: record a
+	// copy of it, taken before we modify ourselves, so that the entry keeps the original
+	// name, message and flags.
+	eh, oh := e.history, o.history
+	if len(eh) == 0 {
+		orig := *e
+		eh = []*ServiceError{&orig}
+	}
+	if len(oh) == 0 {
+		orig := *o
+		oh = []*ServiceError{&orig}
+	}
+	if e.Name == "error" {
+		e.Name = o.Name
+	}
+	e.history = append(eh, oh...)
 	e.err = errors.Join(e.err, o.err)
 
 	e.Message = e.Message + "; " + o.Message
